@@ -81,18 +81,13 @@ var siteTable = []struct {
 	{"enterprise.ExecuteEnterpriseTx", "context.Args[0]", -1, "xCtx0"},
 }
 
-// class id of a confirmed finding, per stage / site / kind of runtime panic (known_findings.json lists
-// them); anything else - another site, another stage, another way of panicking at the same site - is
-// reported without a class, i.e. as a new violation.
+// class id of a *known* finding (listed in known_findings.json with status "known"), per stage / site /
+// kind of runtime panic.  Six earlier findings were repaired in /repo (fix commits b11917e3, 2586c6fa,
+// 9f771520): a panic at those sites - or anywhere else, at another stage, or of another kind at a known
+// site - has no class and is reported as a plain violation.
 var knownClass = map[string]string{
-	"admission/tNameUpdTo/conversion":  "C14-validateNameTx-updateName-arg1",
-	"admission/tNameOwner0/index":      "C14-validateNameTx-setOwner-noargs",
-	"admission/eAdmin0/conversion":     "C14-enterprise-appendAdmin-arg0",
-	"admission/eCheckArgs0/conversion": "C14-enterprise-checkArgs-arg0",
-	"admission/gAdmins/slice":          "C14-getAdmins-short-admin",
-	"execution/vDaoVal/index":          "C14-newVoteCmd-voteDAO-noarg",
-	"execution/rAddSlice/slice":        "C14-addVote-voteBP-candidate-length",
-	"execution/rSubNil/nil":            "C14-subVote-corrupt-old-vote",
+	"execution/rAddSlice/slice": "C14-addVote-voteBP-candidate-length",
+	"execution/rSubNil/nil":     "C14-subVote-corrupt-old-vote",
 }
 
 func panicKind(msg string) string {
@@ -1154,8 +1149,9 @@ func main() {
 	must(one(w, 0, ent, `{"Name":"enableConf","Args":["accountwhite",true]}`, nil, true))
 	batch(w, "4-whitelist-on", []int{0, 1}, 0)
 
-	// phase 5: the admin adds a 3-byte "address" (accepted: DecodeAddress takes names): the admin list stops being a multiple of 33 bytes
-	attempt(one(w, 0, ent, `{"Name":"appendAdmin","Args":["abc"]}`, nil, true)) // refused once admins must be 33 bytes
+	// phase 5: the admin tries to add a 3-byte "address" (DecodeAddress takes names); before fix 2586c6fa this was
+	// accepted and the admin list stopped being a multiple of 33 bytes
+	attempt(one(w, 0, ent, `{"Name":"appendAdmin","Args":["abc"]}`, nil, true)) // refused since fix 2586c6fa (admins must be 33 bytes)
 	{
 		g := &gen{w: w, rng: rng}
 		g.structured(false)
